@@ -1,5 +1,6 @@
 import Genq.Props.C12
 open Genq.HttpResp
+open Genq
 #print axioms C12_non200_is_HTTPError
 #print axioms C12_200_errors
 #print axioms C12_200_ok
@@ -8,3 +9,5 @@ open Genq.HttpResp
 #print axioms C12_body_closed_once
 #print axioms C12_helper_returns_nonnil_partial
 #print axioms C12_helper_nil_on_getter_failure
+#print axioms C12_client_skeleton_tie
+#print axioms C12_operation_template_tie
